@@ -379,6 +379,73 @@ def search_failing(ctx):
     return None
 
 
+def check_process_pipes(ctx):
+    """the server as it is started by an editor: `python -m fortls` over OS pipes.  A body delivered in pieces with pauses in between
+    and a body larger than the pipe capacity are decoded like any other (the in-process passes cannot see how stdin is opened)."""
+    import subprocess
+    import tempfile
+    import time
+    from ..common import REPO
+    root = tempfile.mkdtemp(prefix="verif_c16_p_")
+    big = "program big\n" + "".join("  ! %05d %s\n" % (i, "x" * 60) for i in range(4500)) + "end program big\n"     # ~300 kB
+    path = os.path.join(root, "big.f90")
+    with open(path, "w") as f:
+        f.write(big)
+
+    def frame(m):
+        b = json.dumps(m).encode("ascii")
+        return b"Content-Length: %d\r\n\r\n" % len(b) + b
+    init = frame({"jsonrpc": "2.0", "id": 1, "method": "initialize", "params": {"rootPath": root}})
+    chg = frame({"jsonrpc": "2.0", "method": "textDocument/didChange", "params": {"textDocument": {"uri": "file://" + path}, "contentChanges": [{"text": big}]}})
+    opn = frame({"jsonrpc": "2.0", "method": "textDocument/didOpen", "params": {"textDocument": {"uri": "file://" + path}}})
+    sym = frame({"jsonrpc": "2.0", "id": 2, "method": "textDocument/documentSymbol", "params": {"textDocument": {"uri": "file://" + path}}})
+    shut = frame({"jsonrpc": "2.0", "id": 3, "method": "shutdown", "params": {}}) + frame({"jsonrpc": "2.0", "method": "exit", "params": {}})
+    env = dict(os.environ, PYTHONPATH=REPO)
+    proc = subprocess.Popen([os.environ.get("VERIF_PY", "/venv/bin/python"), "-m", "fortls", "--disable_autoupdate", "--incremental_sync", "--nthreads", "1"],
+                            stdin=subprocess.PIPE, stdout=subprocess.PIPE, stderr=subprocess.DEVNULL, env=env, cwd=root)
+    problem = None
+    try:
+        # initialize in five pieces, an idle server in between
+        n = len(init)
+        for a, b in zip([0, 7, n // 3, n // 2, n - 5], [7, n // 3, n // 2, n - 5, n]):
+            proc.stdin.write(init[a:b]); proc.stdin.flush(); time.sleep(0.15)
+        proc.stdin.write(opn); proc.stdin.flush(); time.sleep(0.1)
+        proc.stdin.write(chg[:50000]); proc.stdin.flush(); time.sleep(0.2)      # a 300 kB body, the rest after a pause
+        proc.stdin.write(chg[50000:]); proc.stdin.write(sym); proc.stdin.write(shut); proc.stdin.flush()
+        proc.stdin.close()
+    except (BrokenPipeError, OSError) as ex:
+        problem = "the server closed its input while a correctly framed message was being written (%r)" % ex
+    try:
+        try:
+            out = proc.stdout.read()
+            proc.wait(timeout=60)
+        except subprocess.TimeoutExpired:
+            out = b""
+            problem = "the server did not end within 60 s"
+        frames = oracle_read_frames(out) if out else []
+        ids = []
+        for fr in frames:
+            try:
+                m = json.loads(fr.decode("utf-8"))
+            except ValueError:
+                continue
+            if "id" in m and ("result" in m or "error" in m):
+                ids.append(m["id"])
+        ctx.count(("process-pipes",), True)
+        if problem is None and ids != [1, 2, 3]:
+            problem = "responses %r for the requests 1, 2, 3" % (ids,)
+        if problem:
+            ctx.report("C16:process-pipes", "python -m fortls over pipes, a request in five pieces and a 300 kB notification in two: %s" % problem,
+                       {"kind": "counterexample", "input": {"pieces_of_initialize": [7, n // 3, n // 2, n - 5, n], "big_body_bytes": len(chg)}, "implementation": ids})
+    finally:
+        try:
+            proc.kill()
+        except Exception:  # noqa: BLE001
+            pass
+        import shutil
+        shutil.rmtree(root, ignore_errors=True)
+
+
 def run(ctx):
     ctx.cov["trusted_base"] = BASE_TRUST + [
         "hand-written model C16/Model.v tied to fortls.jsonrpc (_send, _receive, path_to_uri) by differential execution (this run)",
@@ -400,6 +467,7 @@ def run(ctx):
     check_writer(ctx, 900 if q else 20000)
     check_reader(ctx, 400 if q else 5000, exhaustive_chunking=not q)
     check_uris(ctx, 500 if q else 10000)
+    check_process_pipes(ctx)
 
 
 def replay(ctx, path):
